@@ -136,6 +136,10 @@ def run(ctx, rep):
         rep.analysed(g)
         ok = len(may) == 1 and removal(may[0], g) == (RM_CONTAINER, ['container_name'])
         rep.check(ok, 'R1', 'container/remove', w(g), 'drop removes self.container_name', 'container drop does not remove its own container')
+        mkc = {ekey(e) for e in must}
+        rep.check(len(may) == 1 and all(ekey(e) in mkc for e in may), 'R1', 'container/unconditional', w(g),
+                  'the container is removed on every drop (also while the thread is unwinding)',
+                  'the container removal is conditional (e.g. skipped while panicking): a detached container can be left behind')
         ok, why = removal_shape(RM_CONTAINER, ['rm'], 'container_name')
         rep.check(ok, 'R1', 'command/DockerRemoveContainerCommand', w(g), 'docker rm --force <name>', 'removal command shape: ' + why)
     # ---- R2 --------------------------------------------------------------------------------------------
